@@ -116,7 +116,34 @@ def corpus():
         member["owners"] = [[1, ctx.h(1), 101, 1]]
         out.append((ctx, dl.scenario(ctx, dl.mk_dep(ctx, 2), [r1, r2], [{"op": "dep"}, {"op": "race", "name": ctx.h(1), "with": ctx.h(2), "at": at}],
                                      store=[member])))
-    return out + handover_corpus()
+    return out + handover_corpus() + namespace_corpus()
+
+
+def namespace_corpus():
+    """A like-labelled ObjectDeployment lives in another namespace (ns2): its ObjectSets carry the same selector labels, the same or
+    other template hashes, higher and lower revisions. None of them is a revision of this deployment."""
+    ctx = dl.Ctx(dl.ALPHABET)
+    D = {"op": "dep"}
+    out = []
+    def foreign(name, tmpl, rev, **kw):
+        kw.setdefault("conds", [AV_T(1), SUCC(1)])
+        s = dl.mk_dset(ctx, name, 900 + rev, tmpl, rev, hash=name, ctrl=777, **kw)
+        s["ns"] = 2
+        return s
+    own1 = lambda **kw: dl.mk_dset(ctx, ctx.h(2), 101, 2, 1, hash=ctx.h(2), **kw)
+    # the other namespace's newest ObjectSet has this deployment's template hash (and name): must not count as current
+    out.append((ctx, dict(dl.scenario(ctx, dl.mk_dep(ctx, 1), [], [D, D, {"op": "set", "name": ctx.h(1)}, D]),
+                          foreign=[foreign(ctx.h(1), 1, 3)])))
+    # other hashes, higher and lower revisions than the own revision: must not appear in previous, nor be paused / archived / pruned
+    for frevs in ((5, 6), (1, 7), (0, 4)):
+        f = [foreign(ctx.x(0), 3, frevs[0], conds=[AV_F(1)], ctrlof=[{"gk": 1, "ns": 2, "name": 2}]), foreign(ctx.x(1), 2, frevs[1])]
+        steps = [D, D, {"op": "set", "name": ctx.h(1)}, D, {"op": "set", "name": ctx.h(2)}, D, D]
+        out.append((ctx, dict(dl.scenario(ctx, dl.mk_dep(ctx, 1), [own1(conds=[AV_F(1)], ctrlof=[{"gk": 1, "ns": 1, "name": 2}])], steps), foreign=f)))
+        out.append((ctx, dict(dl.scenario(ctx, dl.mk_dep(ctx, 1, limit=0), [own1(conds=[AV_T(1), SUCC(1)])], steps), foreign=f)))
+    # paused deployment: only its own revisions are paused
+    out.append((ctx, dict(dl.scenario(ctx, dl.mk_dep(ctx, 2, paused=True), [own1(conds=[AV_T(1)])], [D, {"op": "pause", "v": False}, D]),
+                          foreign=[foreign(ctx.x(0), 3, 2)])))
+    return out
 
 
 # templates of the handover witnesses (coq/theories/HandoverProofs.v w1_history, w2_history, w3_history); Widgets (kind 2) are probed
